@@ -83,6 +83,27 @@ def corpus(ctx, rng):
         om = set(rng.sample(side, min(len(side), rng.randint(2, 4))))
         jobs.append({"what": f"{'-'.join(seq)} without {sorted(om)}", "text": gen.pdb_text([gen.peptide(seq, omit=om)]),
                      "args": [f"--ff={rng.choice(ffs)}"]})
+    # the other labelling of equivalent positions (carboxylate / guanidinium / ring / branch atoms), flipped amides and rings
+    for x, pairs in gen.EQUIVALENT_NAMES.items():
+        for pos in ([1] if ctx.quick else [0, 1, 2]):
+            seq = ["ALA", "ALA", "ALA"]
+            seq[pos] = x
+            names = [n if n not in ("ASH", "GLH") else n for n in seq]
+            at = gen.swap_names(gen.peptide(seq), pos, pairs)
+            jobs.append({"what": f"{'-'.join(seq)} with {pairs} exchanged", "text": gen.pdb_text([at + gen.water((6, 14, 4), resseq=101)]),
+                         "args": [f"--ff={ffs[k % 6] if x not in ('ASH', 'GLH') else 'PARSE'}"]})
+            k += 1
+    jobs.append({"what": "acids with exchanged oxygens at pH 1", "args": ["--ff=PARSE", "--titration-state-method=propka", "--with-ph=1"],
+                 "text": gen.pdb_text([gen.swap_names(gen.swap_names(gen.peptide(["ALA", "ASP", "GLY", "GLU", "ALA"]), 1, [("OD1", "OD2")]), 3, [("OE1", "OE2")])])})
+    # resolved neutral acids: one C-O bond long (the hydroxyl), either oxygen; named ASH / GLH or protonated by titration
+    for x, c, o1, o2 in (("ASH", "CG", "OD1", "OD2"), ("GLH", "CD", "OE1", "OE2"), ("ASP", "CG", "OD1", "OD2"), ("GLU", "CD", "OE1", "OE2")):
+        for long_, short in ((o1, o2), (o2, o1)):
+            for pos in ([1] if ctx.quick else [0, 1, 2]):
+                seq = ["ALA", "ALA", "ALA"]
+                seq[pos] = x
+                at = gen.set_bond_length(gen.set_bond_length(gen.peptide(seq), pos, c, long_, 1.32), pos, c, short, 1.21)
+                jobs.append({"what": f"{'-'.join(seq)} with long {c}-{long_}", "text": gen.pdb_text([at + gen.water((6, 14, 4), resseq=101)]),
+                             "args": ["--ff=PARSE"] + ([] if x in ("ASH", "GLH") else ["--titration-state-method=propka", "--with-ph=1"])})
     # random side-chain conformations (torsions only; some of them clash and are debumped)
     for rep in range(6 if ctx.quick else 80):
         seq = [rng.choice(gen.AMINO) for _ in range(10)]
